@@ -27,15 +27,16 @@ import (
 // of the space stays checked; its pinned reproduction then prints KNOWN-FINDING instead of
 // failing.
 const (
-	c32FDropIdxCol    = "C32-patch-drop-column-before-index"   // DROP COLUMN is emitted before DROP INDEX of that column's index: the patch fails with error 1091
-	c32FPKIndex       = "C32-patch-create-omits-pk-index"      // CREATE TABLE of a patch omits a secondary index whose columns are exactly the primary key
-	c32FRenamedNull   = "C32-patch-renamed-column-set-null"    // a row whose value in a renamed column becomes NULL gets no UPDATE (from_ values are matched to the target schema by column name)
-	c32FRenameDropIdx = "C32-patch-rename-table-drop-index"    // after RENAME TABLE the DROP INDEX statements still name the old table: error 1146
-	c32FDefaultNull   = "C32-patch-added-default-column-null"  // a column added with a DEFAULT: rows holding NULL in it at `to` get no UPDATE and keep the default
-	c32FDefaultChange = "C32-patch-default-change-ignored"     // a changed column DEFAULT produces no statement
-	c32FSameName      = "C32-patch-same-name-other-column"     // a dropped column and a new column of the same name but another type: the old value is compared as the new column's old value (query error or missing UPDATE)
-	c32FRenameOnto    = "C32-patch-rename-onto-dropped-column" // RENAME COLUMN x TO y is emitted before DROP y: error "column already exists"
-	c32FColOrder      = "C32-patch-column-position"            // ADD COLUMN is emitted without FIRST/AFTER: the patched table has another column order than `to`
+	c32FDropIdxCol    = "C32-patch-drop-column-before-index"    // DROP COLUMN is emitted before DROP INDEX of that column's index: the patch fails with error 1091
+	c32FPKIndex       = "C32-patch-create-omits-pk-index"       // CREATE TABLE of a patch omits a secondary index whose columns are exactly the primary key
+	c32FRenamedNull   = "C32-patch-renamed-column-set-null"     // a row whose value in a renamed column becomes NULL gets no UPDATE (from_ values are matched to the target schema by column name)
+	c32FRenameDropIdx = "C32-patch-rename-table-drop-index"     // after RENAME TABLE the DROP INDEX statements still name the old table: error 1146
+	c32FDefaultNull   = "C32-patch-added-default-column-null"   // a column added with a DEFAULT: rows holding NULL in it at `to` get no UPDATE and keep the default
+	c32FDefaultChange = "C32-patch-default-change-ignored"      // a changed column DEFAULT produces no statement
+	c32FSameName      = "C32-patch-same-name-other-column"      // a dropped column and a new column of the same name but another type: the old value is compared as the new column's old value (query error or missing UPDATE)
+	c32FMultiRename   = "C32-diff-table-matched-to-two-renames" // diff.matchTableDeltas pairs one `from` table with every `to` table that shares a column tag (no break): a table is reported renamed to two tables
+	c32FRenameOnto    = "C32-patch-rename-onto-dropped-column"  // RENAME COLUMN x TO y is emitted before DROP y: error "column already exists"
+	c32FColOrder      = "C32-patch-column-position"             // ADD COLUMN is emitted without FIRST/AFTER: the patched table has another column order than `to`
 )
 
 // c32Excluded: the shape is switched off because the finding is listed open (or named in
@@ -215,6 +216,26 @@ func c32Overlap(a, b *hTable) bool {
 	return false
 }
 
+// c32ShapeMultiRename: a table that exists only at `from` shares a column with two or more
+// tables that exist only at `to`.
+func c32ShapeMultiRename(fs, ts hState, pool []string) bool {
+	for _, n := range pool {
+		if fs[n] == nil || ts[n] != nil {
+			continue
+		}
+		cnt := 0
+		for _, m := range pool {
+			if ts[m] != nil && fs[m] == nil && c32Overlap(fs[n], ts[m]) {
+				cnt++
+			}
+		}
+		if cnt >= 2 {
+			return true
+		}
+	}
+	return false
+}
+
 // c32ShapeRenameDropIdx: (for a possibly renamed table) an index of `from` is absent at `to`.
 func c32ShapeRenameDropIdx(from, to *hTable) bool {
 	if from == nil || to == nil {
@@ -329,6 +350,9 @@ func c32PKChanged(from, to *hTable) bool {
 //     any report is accepted as long as its values are right.
 func c32RowDiffers(from, to *hTable, fr, tr []string) (must bool) {
 	for j, tc := range to.Cols {
+		if tc.PK {
+			continue // the rows are paired by equal key values
+		}
 		found := false
 		for i, fc := range from.Cols {
 			if fc.UID == tc.UID {
@@ -551,6 +575,14 @@ func (c *c32Checker) pair(fi, ti int, opts c32Opts) {
 		rows, err := h.w.Query(q)
 		c.st.evals++
 		if err != nil {
+			if (from == nil || to == nil) && c.renameCandidate(fi, ti, name) {
+				// dolt pairs this table with one of another name (rename detection over shared column
+				// tags; the choice among several candidates follows Go map order) and the two schemas
+				// may be undiffable: an error here is not a statement about the data
+				c.st.unspecified++
+				renamed[name] = true
+				continue
+			}
 			c.fail("C32 dolt_diff: %s failed: %v", q, err)
 		}
 		e, problem := c.rowDiff("dolt_diff()", q, rows, from, to, fc.Hash, tc.Hash)
@@ -735,6 +767,11 @@ func (c *c32Checker) diffSummary(fi, ti int) {
 	if err != nil {
 		c.fail("C32 dolt_diff_summary: %s failed: %v", q, err)
 	}
+	if c32ShapeMultiRename(fc.State, tc.State, h.cfg.TablePool) && c32Excluded(c32FMultiRename) {
+		c.st.excluded++
+		c.st.excludedBy[c32FMultiRename+"(summary)"]++
+		return
+	}
 	fromSeen, toSeen := map[string][]string{}, map[string][]string{}
 	for _, r := range rows.Data {
 		if r[0] != "" {
@@ -864,6 +901,11 @@ func (c *c32Checker) patch(fi, ti int) {
 			c.st.narrowSkipped++
 			return // see the assumptions: schema statements come first, a narrowing MODIFY may not fit `from`'s rows
 		}
+	}
+	if c32ShapeMultiRename(fc.State, tc.State, h.cfg.TablePool) && c32Excluded(c32FMultiRename) {
+		c.st.excluded++
+		c.st.excludedBy[c32FMultiRename]++
+		return
 	}
 	// pairs of (table at `from`, table at `to`) that dolt may relate: the same name, or (a possible
 	// rename) a name that exists only at `from` with a name that exists only at `to`
@@ -1088,18 +1130,21 @@ func (c *c32Checker) diffTable() {
 type c32Pinned struct {
 	id   string
 	a, b []string
+	pre  []string // optional: statements of an earlier commit
+	rev  bool     // apply dolt_patch(B,A) at B instead
 }
 
 var c32PinnedCases = []c32Pinned{
-	{c32FDropIdxCol, []string{"CREATE TABLE t (pk INT PRIMARY KEY, c INT, KEY ix (c))", "INSERT INTO t VALUES (1,1)"}, []string{"ALTER TABLE t DROP COLUMN c"}},
-	{c32FPKIndex, []string{"CREATE TABLE other (pk INT PRIMARY KEY)"}, []string{"CREATE TABLE t (pk INT PRIMARY KEY, c INT)", "CREATE INDEX ix ON t (pk)"}},
-	{c32FRenamedNull, []string{"CREATE TABLE t (pk INT PRIMARY KEY, c1 VARCHAR(20))", "INSERT INTO t VALUES (1,'x'),(2,'y')"}, []string{"ALTER TABLE t RENAME COLUMN c1 TO c4", "UPDATE t SET c4 = NULL WHERE pk = 1"}},
-	{c32FRenameDropIdx, []string{"CREATE TABLE t (pk INT PRIMARY KEY, c INT, KEY ix (c))", "INSERT INTO t VALUES (1,1)"}, []string{"RENAME TABLE t TO u", "ALTER TABLE u DROP INDEX ix"}},
-	{c32FColOrder, []string{"CREATE TABLE t (pk INT PRIMARY KEY, c INT)", "INSERT INTO t VALUES (1,1)"}, []string{"ALTER TABLE t ADD COLUMN d INT AFTER pk"}},
-	{c32FRenameOnto, []string{"CREATE TABLE t (pk INT PRIMARY KEY, c1 TEXT, c0 VARBINARY(20))", "INSERT INTO t VALUES (1,'x',X'00')"}, []string{"ALTER TABLE t DROP COLUMN c0", "ALTER TABLE t RENAME COLUMN c1 TO c0"}},
-	{c32FDefaultNull, []string{"CREATE TABLE t (pk INT PRIMARY KEY, c INT)", "INSERT INTO t VALUES (1,1),(2,2)"}, []string{"ALTER TABLE t ADD COLUMN d INT DEFAULT -3", "UPDATE t SET d = NULL WHERE pk = 1"}},
-	{c32FDefaultChange, []string{"CREATE TABLE t (pk INT PRIMARY KEY, c INT)", "INSERT INTO t VALUES (1,1)"}, []string{"ALTER TABLE t MODIFY COLUMN c INT DEFAULT 3"}},
-	{c32FSameName, []string{"CREATE TABLE t (pk INT PRIMARY KEY, c3 DECIMAL(12,2))", "INSERT INTO t VALUES (0,-0.03)"}, []string{"ALTER TABLE t DROP COLUMN c3", "ALTER TABLE t ADD COLUMN c3 DATETIME(6)", "UPDATE t SET c3 = '2000-04-22 03:00:20'"}},
+	{c32FDropIdxCol, []string{"CREATE TABLE t (pk INT PRIMARY KEY, c INT, KEY ix (c))", "INSERT INTO t VALUES (1,1)"}, []string{"ALTER TABLE t DROP COLUMN c"}, nil, false},
+	{c32FPKIndex, []string{"CREATE TABLE other (pk INT PRIMARY KEY)"}, []string{"CREATE TABLE t (pk INT PRIMARY KEY, c INT)", "CREATE INDEX ix ON t (pk)"}, nil, false},
+	{c32FRenamedNull, []string{"CREATE TABLE t (pk INT PRIMARY KEY, c1 VARCHAR(20))", "INSERT INTO t VALUES (1,'x'),(2,'y')"}, []string{"ALTER TABLE t RENAME COLUMN c1 TO c4", "UPDATE t SET c4 = NULL WHERE pk = 1"}, nil, false},
+	{c32FRenameDropIdx, []string{"CREATE TABLE t (pk INT PRIMARY KEY, c INT, KEY ix (c))", "INSERT INTO t VALUES (1,1)"}, []string{"RENAME TABLE t TO u", "ALTER TABLE u DROP INDEX ix"}, nil, false},
+	{c32FColOrder, []string{"CREATE TABLE t (pk INT PRIMARY KEY, c INT)", "INSERT INTO t VALUES (1,1)"}, []string{"ALTER TABLE t ADD COLUMN d INT AFTER pk"}, nil, false},
+	{c32FRenameOnto, []string{"CREATE TABLE t (pk INT PRIMARY KEY, c1 TEXT, c0 VARBINARY(20))", "INSERT INTO t VALUES (1,'x',X'00')"}, []string{"ALTER TABLE t DROP COLUMN c0", "ALTER TABLE t RENAME COLUMN c1 TO c0"}, nil, false},
+	{c32FDefaultNull, []string{"CREATE TABLE t (pk INT PRIMARY KEY, c INT)", "INSERT INTO t VALUES (1,1),(2,2)"}, []string{"ALTER TABLE t ADD COLUMN d INT DEFAULT -3", "UPDATE t SET d = NULL WHERE pk = 1"}, nil, false},
+	{c32FDefaultChange, []string{"CREATE TABLE t (pk INT PRIMARY KEY, c INT)", "INSERT INTO t VALUES (1,1)"}, []string{"ALTER TABLE t MODIFY COLUMN c INT DEFAULT 3"}, nil, false},
+	{id: c32FMultiRename, rev: true, pre: []string{"CREATE TABLE t0 (pk INT PRIMARY KEY, c0 INT)", "INSERT INTO t0 VALUES (1,1)"}, a: []string{"RENAME TABLE t0 TO t2", "CREATE TABLE t0 (pk INT PRIMARY KEY, c2 INT)"}, b: []string{"DROP TABLE t0", "RENAME TABLE t2 TO t1"}},
+	{c32FSameName, []string{"CREATE TABLE t (pk INT PRIMARY KEY, c3 DECIMAL(12,2))", "INSERT INTO t VALUES (0,-0.03)"}, []string{"ALTER TABLE t DROP COLUMN c3", "ALTER TABLE t ADD COLUMN c3 DATETIME(6)", "UPDATE t SET c3 = '2000-04-22 03:00:20'"}, nil, false},
 }
 
 // c32RunPinned returns "" when the patch round trip reproduces commit B, else what went wrong.
@@ -1109,6 +1154,12 @@ func c32RunPinned(t *testing.T, srv *vsql.Server, admin *vsql.Session, pc c32Pin
 	defer admin.Exec("DROP DATABASE " + db)
 	w := srv.Session(t, "w", db)
 	defer w.Close()
+	if len(pc.pre) > 0 {
+		for _, q := range pc.pre {
+			w.MustExec(t, q)
+		}
+		w.MustExec(t, "CALL dolt_commit('-A','-m','pre')")
+	}
 	for _, q := range pc.a {
 		w.MustExec(t, q)
 	}
@@ -1117,6 +1168,9 @@ func c32RunPinned(t *testing.T, srv *vsql.Server, admin *vsql.Session, pc c32Pin
 		w.MustExec(t, q)
 	}
 	hb := w.MustQuery(t, "CALL dolt_commit('-A','-m','B')").Data[0][0]
+	if pc.rev {
+		ha, hb = hb, ha
+	}
 	rows, err := w.Query(fmt.Sprintf("SELECT statement FROM dolt_patch('%s','%s') ORDER BY statement_order", ha, hb))
 	if err != nil {
 		return fmt.Sprintf("dolt_patch(A,B) failed: %v", err)
@@ -1134,7 +1188,7 @@ func c32RunPinned(t *testing.T, srv *vsql.Server, admin *vsql.Session, pc c32Pin
 		}
 	}
 	tb, err1 := p.Query("SHOW TABLES")
-	tw, err2 := w.Query("SHOW TABLES")
+	tw, err2 := w.Query("SHOW TABLES AS OF '" + hb + "'")
 	if err1 != nil || err2 != nil {
 		return fmt.Sprintf("SHOW TABLES: %v / %v", err1, err2)
 	}
@@ -1144,7 +1198,7 @@ func c32RunPinned(t *testing.T, srv *vsql.Server, admin *vsql.Session, pc c32Pin
 	for _, r := range tw.Data {
 		name := r[0]
 		got, err1 := p.Query("SELECT * FROM `" + name + "`")
-		want, err2 := w.Query("SELECT * FROM `" + name + "`")
+		want, err2 := w.Query("SELECT * FROM `" + name + "` AS OF '" + hb + "'")
 		if err1 != nil || err2 != nil {
 			return fmt.Sprintf("read %s: %v / %v", name, err1, err2)
 		}
@@ -1152,7 +1206,7 @@ func c32RunPinned(t *testing.T, srv *vsql.Server, admin *vsql.Session, pc c32Pin
 			return fmt.Sprintf("table %s after patch: %v; at B: %v (patch: %s)", name, got, want, strings.Join(stmts, " "))
 		}
 		sc, err1 := p.Query("SHOW CREATE TABLE `" + name + "`")
-		sw, err2 := w.Query("SHOW CREATE TABLE `" + name + "`")
+		sw, err2 := w.Query("SHOW CREATE TABLE `" + name + "` AS OF '" + hb + "'")
 		if err1 != nil || err2 != nil {
 			return fmt.Sprintf("SHOW CREATE TABLE %s: %v / %v", name, err1, err2)
 		}
@@ -1187,7 +1241,7 @@ func c32Run(t *testing.T, rec *vh.Recorder, part string, quick, thorough int, cf
 				vh.ReportKnown("C32", pc.id, msg)
 				return
 			}
-			detail, _ := json.Marshal(map[string]any{"finding": pc.id, "commit_A": pc.a, "commit_B": pc.b, "then": "apply the statements of dolt_patch(A,B) to a branch created at A", "observed": msg})
+			detail, _ := json.Marshal(map[string]any{"finding": pc.id, "earlier_commit": pc.pre, "commit_A": pc.a, "commit_B": pc.b, "then": "apply the statements of dolt_patch(A,B) to a branch created at A", "observed": msg})
 			vh.NoteViolation(t.Name(), "", string(detail))
 			t.Errorf("%s: %s", pc.id, msg)
 		})
